@@ -118,7 +118,7 @@ def g_gradient(r):
 
 def g_config(r):
     f = {"time": _f(r, 1e-15, 1e-13), "grid": g_grid(r), "backend": R("str", v="cpu"), "courant_factor": _f(r, 0.5, 0.99),
-         "symmetry": R("tuple", v=[R("int", v=int(x)) for x in r.integers(-1, 2, size=3)])}
+         "symmetry": R("tuple", v=[R("int", v=int(x), lo=-1, hi=1) for x in r.integers(-1, 2, size=3)])}  # constructor-validated domain: regen stays inside it
     if r.uniform() < 0.7:
         f["gradient_config"] = g_gradient(r)
     if r.uniform() < 0.5:
@@ -226,6 +226,8 @@ def regen(r, node):
     if t == "float":
         return _f(r, 0.1, 9.0)
     if t == "int":
+        if "lo" in node:  # field whose constructor validates its domain (SimulationConfig.symmetry): a later same-value write re-builds it
+            return R("int", v=int(r.integers(node["lo"], node["hi"] + 1)), lo=node["lo"], hi=node["hi"])
         return R("int", v=int(r.integers(0, 9)))
     if t == "str":
         return R("str", v=node["v"] + specgen.choice(r, ["_a", "_b", "2"])) if node["v"] not in ("cpu", "reversible", "checkpointed") else copy.deepcopy(node)
